@@ -26,6 +26,8 @@ def jobs(tier, seed):
     S.append([shapes.comp(17, [(0xC3, 1), (0xC2, 1)], enc=True)])
     S.append([shapes.comp(3, [(0xC3, 1)]), shapes.comp(32, [(0xC2, 1)], enc=True)])
     S.append([shapes.comp(16, [], enc=True), shapes.comp(5, [(0xC8, 2)])])
+    S.append([shapes.comp(17, [(0xC2, 1)], enc=True), shapes.comp(5, [])])  # padded ciphertext followed by another payload
+    S.append([shapes.comp(1, [], enc=True), shapes.comp(2, []), shapes.comp(33, [], enc=True)])
     for sh in S:
         J.append(dict(name="bf3:%s" % shapes.shape_name(sh), kind="bf3", shape=sh, timeout=900, cost=sum(c["plen"] for c in sh) + 40 * len(sh)))
     hdrs = [[], ["cust"], ["ecc"], ["update"], ["cust", "update"], ["update", "ecc", "cust"]]
@@ -114,6 +116,7 @@ def run_job(job):
             off = sym.sym_int("off", 0, 65537)
             vals = dict(key=key, off=off)
             comps, model = build(vals)
+            runner.track(vals)
             real = bf.Bf3File({}, comps).to_binary(off, key)
             want = model_bf3(stubs, model, off, key, wrong=job.get("wrong_model"))
             ok = len(real) == len(want) and real == want
@@ -133,6 +136,7 @@ def run_job(job):
             code = sym.sym_bytes("code", 8)
             ck = sym.sym_bytes("ck", 16)
             vals.update(code=code, ck=ck)
+            runner.track(vals)
             blocks, enc = [], []
             recipient = UFPrivate.generate()
             for k in order:
